@@ -8,6 +8,7 @@ import (
 	"fmt"
 	"go/ast"
 	"go/types"
+	"sort"
 )
 
 func ghostKey(name string) string { return "ghost." + name }
@@ -56,4 +57,26 @@ func (c *FuncCtx) ghostHavoc(st *State, name string, arg ast.Expr) {
 func (e *Engine) isGhost(name string) bool {
 	_, ok := e.spec.Ghosts[name]
 	return ok
+}
+
+// zeroGhosts: a freshly created (zero) object has zero ghost state - every
+// ghost map declared over v's type holds the zero value at v.
+func (c *FuncCtx) zeroGhosts(st *State, v *Val) {
+	if c.inSpec(st) {
+		return
+	}
+	names := make([]string, 0, len(c.eng.spec.Ghosts))
+	for name := range c.eng.spec.Ghosts {
+		names = append(names, name)
+	}
+	sort.Strings(names)
+	for _, name := range names {
+		pt, rt := c.ghostSorts(name)
+		if !types.Identical(pt, v.T) {
+			continue
+		}
+		arr := c.ghostArr(st, name)
+		k := ghostKey(name)
+		st.heap[k] = c.shareTerm(st, mkStore(arr, v.S, c.eng.zero(rt)), fmt.Sprintf("(Array %s %s)", c.eng.sortOf(pt), c.eng.sortOf(rt)), "G_"+name)
+	}
 }
